@@ -75,7 +75,17 @@ func (c *Check) expiredBatchRules(prefix string, which map[string]bool) {
 					}
 				}
 			}
-			if !removed {
+			// (a path that changed nothing — the batch had been completed before, by its last response — has nothing to write)
+			changed := false
+			for _, ev := range pa.Events {
+				if ev.Kind == EvCall && cf != nil && ev.CI.fn == cf {
+					changed = true
+				}
+				if ev.Kind == EvWrite && ev.Struct == "RequestContext" {
+					changed = true
+				}
+			}
+			if !removed && changed {
 				add("persist", "the context is neither persisted nor removed", pa)
 			}
 			X = u.EB.val()
